@@ -949,6 +949,17 @@ theorem flush_join_retry_heals :
       .op (.indexPrepare 0), .op (.indexFlush 0), .op .reopen]
     (nd.shards 0).series.lookup 0 1 = some 0 ∧ (nd.genSeries c 0 0 2 []).2 = .id 1 := by decide
 
+/-- why `cover_reachable` asks for the PrepareFlush shape lindb has now (swap when nil OR empty, commit a4b424c): with
+the old test (`immutable == nil`) a faulted round desynchronises the tables — series a (with a tag), PrepareFlush, the
+forward step fails (postings flushed, dictionary still frozen); the next PrepareFlush freezes an EMPTY postings table,
+which then sticks for ever while the dictionary keeps swapping; series b's dictionary entry is flushed, its posting
+never; after a crash the new series c gets b's id -/
+theorem flush_fault_old_prepare_shape :
+    let c : Cfg := { seriesLimitFirst := true, prepareSwapsEmpty := false, indexFlushAborts := true }
+    let nd := frun c [0, 1, 2, 3] {} [.op (.series 0 0 1 [(1, 1)]), .op (.indexPrepare 0), .indexFlushFault 0 1,
+      .op (.indexPrepare 0), .op (.indexFlush 0), .op (.series 0 0 2 []), .op (.indexPrepare 0), .op (.indexFlush 0), .op .reopen]
+    (nd.shards 0).series.lookup 0 2 = some 1 ∧ (nd.genSeries c 0 0 3 []).2 = .id 1 := by decide
+
 end Neg
 
 /-- what holds for a Flush that aborts on a failed step / that carries on -/
